@@ -19,7 +19,7 @@ func init() { engine.Register(c09{}) }
 
 func (c09) ID() string { return "C09" }
 
-var c09Atoms = []string{"true", "false", "x", "é", "_", "0", "1", "9", "0x", "0b", "e", "E", ".", "+", "-", "<", "=", "<=", "!", "?", ":", ",", "(", "[", "\"", "\\", "`", "'", " ", "\t", "\n", "and", "not", "in", "t", "`\n\n`", "'\n \n'", "\"a\nb\n\""}
+var c09Atoms = []string{"true", "false", "x", "é", "_", "0", "1", "9", "0x", "0b", "e", "E", ".", "+", "-", "<", "=", "<=", "!", "?", ":", ",", "(", "[", "\"", "\\", "`", "'", " ", "\t", "\n", "and", "not", "in", "t", "`\n\n`", "'\n \n'", "\"a\nb\n\"", "ˆ"}
 
 var c09OpSets = map[string][]ref.Op{
 	"builtin": nil, // filled from the real built-in table
@@ -28,9 +28,10 @@ var c09OpSets = map[string][]ref.Op{
 	"words":   {{Sym: "in", BP: 6, Fixity: "infixn"}, {Sym: "int", BP: 10, Fixity: "prefix"}, {Sym: "not", BP: 10, Fixity: "prefix"}, {Sym: "and", BP: 4, Fixity: "infixl"}, {Sym: "t", BP: 11, Fixity: "postfix"}},
 	"unicode": {{Sym: "é", BP: 7, Fixity: "infixl"}, {Sym: "éé", BP: 8, Fixity: "infixl"}, {Sym: "x_", BP: 10, Fixity: "prefix"}},
 	"empty":   {},
+	"caret":   {{Sym: "ˆ", BP: 9, Fixity: "infixr"}, {Sym: "ˆˆ", BP: 9, Fixity: "infixr"}, {Sym: ".ˆ.", BP: 7, Fixity: "infixl"}, {Sym: "+ˆ", BP: 7, Fixity: "infixl"}, {Sym: "+", BP: 7, Fixity: "infixl"}},
 }
 
-var c09SetOrder = []string{"builtin", "overlap", "dotq", "words", "unicode", "empty"}
+var c09SetOrder = []string{"builtin", "overlap", "dotq", "words", "unicode", "empty", "caret"}
 
 func c09Ops(name string) []ref.Op {
 	if name == "builtin" {
@@ -46,7 +47,7 @@ func (c09) Meta(tier string) engine.Meta {
 	}
 	return engine.Meta{
 		Level: "model_checking",
-		Rule: fmt.Sprintf("all strings of <= %d atoms over the %d-atom mixed alphabet %q, under 6 operator sets (built-in; prefix-overlapping symbolic < <= <=> = =>; containing . and ? : .. .^. ?: ??; identifier-like with common prefixes in int not and t; non-ASCII identifier-like; empty). A case is one (operator set, first two atoms) pair; its run enumerates every suffix. Oracle: (a) model-free: tokens in source order, no overlap, gaps are white space only, runes[Idx:IdxEnd] == Lexeme, Line / Col recomputed from the text; (b) the token sequence (kind, lexeme, span) equals the hand-written reference scanner's; error iff the reference errors. non-trivial = strings with >= 2 atoms", n, len(c09Atoms), c09Atoms),
+		Rule: fmt.Sprintf("all strings of <= %d atoms over the %d-atom mixed alphabet %q, under 7 operator sets (built-in; with the non-ASCII operator character ˆ; prefix-overlapping symbolic < <= <=> = =>; containing . and ? : .. .^. ?: ??; identifier-like with common prefixes in int not and t; non-ASCII identifier-like; empty). A case is one (operator set, first two atoms) pair; its run enumerates every suffix. Oracle: (a) model-free: tokens in source order, no overlap, gaps are white space only, runes[Idx:IdxEnd] == Lexeme, Line / Col recomputed from the text; (b) the token sequence (kind, lexeme, span) equals the hand-written reference scanner's; error iff the reference errors. non-trivial = strings with >= 2 atoms", n, len(c09Atoms), c09Atoms),
 		Bound: fmt.Sprintf("%d atoms per string, 6 operator sets", n),
 		Assumptions: []string{"the literal grammars of lexer/factory.go (README: 'lexicon: lexer/factory.go') are the documented lexical grammar, re-implemented by hand without regexp", "unicode.IsSpace / IsLetter are shared library code"},
 	}
